@@ -771,7 +771,8 @@ def failures_of(o: Dict[str, Any]) -> List[Tuple[str, str]]:
             res.append((f'c10:exception-escaped-to-loop:{name}:{where}', f'{tag}: {name} reached the event loop from {where}'))
     for op, desc in o.get('undocumented', []):
         cls, _, where = desc.partition(':')
-        res.append((f'undocumented-exception:sftp_client.{op}:{cls}',
+        fn = 'start_sftp_client' if op == 'start_sftp_client' else 'sftp_client'
+        res.append((f'undocumented-exception:{fn}:{cls}',
                     f'{tag}: SFTP client call {op} raised {cls} (from {where}) on a hostile server reply'))
     if o.get('closed') and not o.get('spin'):
         if len(o.get('reports', [])) == 0:
